@@ -34,7 +34,9 @@ LEVEL_TEXT = ("Lean, for every plan and every magnitude: a conversion that retur
               "(every ratio within 1e-3, within 2e-5 for all but the one known pair; nodes unprefixed; offsets only on temperature "
               "units): hence for EVERY pair of interned units, after ANY unit operations, whatever convert returns through a directly "
               "found path is right within (1 +- 1e-3)^W (shipped_direct_conversions_near, _after) - a universal statement where "
-              "the family obligation samples 158 pairs. "
+              "the family obligation samples 158 pairs; and the same for conversions between simple units through the factor "
+              "planner on the shipped data (convert_simple_near, shipped_simple_conversions_near: within (1000/999)^W, W <= graph "
+              "edges walked; inhabited by 60 mile/hour -> meter/second). "
               "The factor-matching planner as a whole is NOT proved sound - it is a heuristic "
               "that is wrong outside a fragment - so this check is partial: the model of the planner is tied to the code by "
               "differential execution (plans compared structurally), and the exact-size oracle runs on the real library over the "
@@ -56,8 +58,11 @@ THEOREMS = [
     "Measured.Obligations.NearShipped.shipped_graphNear", "Measured.Obligations.NearShipped.shipped_offRef",
     "Measured.Obligations.NearShipped.shipped_direct_conversions_near",
     "Measured.Obligations.NearShipped.shipped_direct_conversions_near_after",
+    "Measured.convert_simple_near", "Measured.inlinePaths_near", "Measured.planValue_near",
+    "Measured.Obligations.NearShipped.shipped_simple_conversions_near",
+    "Measured.Obligations.NearShipped.shipped_simple_inhabited",
 ]
-LEAN_TARGETS = ["Props.C04", "Props.C05", "Obligations.C04", "Obligations.C09", "Obligations.C04Near"]
+LEAN_TARGETS = ["Props.C04", "Props.C05", "Obligations.C04", "Obligations.C09", "Obligations.C04Near", "Obligations.C05Near"]
 THOROUGH_TARGETS = ["ObligationsFull.C04Full"]
 QUICK = {"chunks": 4, "ops": 1500}
 THOROUGH = {"chunks": 16, "ops": 9000}
